@@ -144,7 +144,9 @@ class Report:
         cov = {
             "explanation": (
                 "Static analysis of /repo's working tree (ast only, nothing imported or run). "
-                "Each obligation is one instance of a rule from DESIGN.md section 2 evaluated on a "
+                "The modules are first normalised (inert statements dropped, comparison spellings unified, keyword arguments "
+                "naming the next positional parameters made positional, locals of functions that are alpha-equivalent to the frozen "
+                "reference renamed back). Each obligation is one instance of a rule from DESIGN.md sections 2 and 5 evaluated on a "
                 "specific construct (function, call site, branch, vector layout). The rules are "
                 "necessary structural conditions of the property; they hold for all inputs because "
                 "they do not depend on run-time values. What is NOT decided is listed in "
